@@ -4,6 +4,7 @@ import Mathlib.Tactic.Common
 Helper lemmas for C13 (`JF/Props/C13.lean`): heap frame rules, freshness of the copies made by
 `extract_from_global_state`, effect of `insert_into_global_state` on the identifier-indexed view.
 -/
+set_option linter.unusedSimpArgs false
 namespace JF.Store
 variable {α : Type}
 
@@ -361,5 +362,459 @@ theorem extract_spec {g : Global α} {h : Heap α} {id : Ident} (ok : GlobalOK g
               congr 1
               exact readUnit_congr (fun x hx => e1.2 x (nok L (List.mem_cons_of_mem _ (List.mem_of_getElem? hL)) _ x hx))
       | _ :: _ :: _, he => simp at he
+
+/-! ### `insert_into_global_state` on the identifier-indexed view -/
+
+theorem dictGet_dictSet (d : List (Ident × Ref × Ref)) (id id' : Ident) (x : Ref × Ref) :
+    dictGet (dictSet d id x) id' = if id' = id then some x else dictGet d id' := by
+  induction d with
+  | nil => simp only [dictSet, dictGet]; split <;> simp_all [eq_comm]
+  | cons e d ih =>
+    obtain ⟨k, y⟩ := e
+    simp only [dictSet]
+    by_cases hk : k = id
+    · subst hk
+      simp only [if_true, dictGet]
+      by_cases h2 : k = id' <;> simp [h2, eq_comm]
+      intro h3; exact absurd h3.symm h2
+    · simp only [hk, if_false, dictGet, ih]
+      by_cases h2 : k = id'
+      · subst h2; simp [hk]
+      · simp [h2]
+
+theorem dictGet_dictDel (d : List (Ident × Ref × Ref)) (id id' : Ident) :
+    dictGet (dictDel d id) id' = if id' = id then none else dictGet d id' := by
+  induction d with
+  | nil => simp [dictDel, dictGet]
+  | cons e d ih =>
+    obtain ⟨k, y⟩ := e
+    simp only [dictDel] at ih
+    simp only [dictDel, List.filter_cons]
+    by_cases hk : k = id
+    · subst hk
+      simp only [ne_eq, not_true_eq_false, decide_false, Bool.false_eq_true, if_false, ih, dictGet]
+      by_cases h2 : id' = k
+      · simp [h2]
+      · simp [h2, Ne.symm h2]
+    · simp only [ne_eq, hk, not_false_eq_true, decide_true, if_true, dictGet, ih]
+      by_cases h2 : k = id'
+      · subst h2; simp [hk]
+      · simp [h2]
+
+theorem mem_dictSet {d : List (Ident × Ref × Ref)} {id : Ident} {x : Ref × Ref} {e : Ident × Ref × Ref}
+    (he : e ∈ dictSet d id x) : e ∈ d ∨ e = (id, x) := by
+  induction d with
+  | nil => simp_all [dictSet]
+  | cons a d ih =>
+    obtain ⟨k, y⟩ := a
+    simp only [dictSet] at he
+    split at he
+    · rename_i hk
+      simp only [List.mem_cons] at he ⊢
+      rcases he with he | he
+      · right; rw [he, hk]
+      · left; right; exact he
+    · simp only [List.mem_cons] at he ⊢
+      rcases he with he | he
+      · left; left; exact he
+      · rcases ih he with h | h
+        · left; right; exact h
+        · right; exact h
+
+/-- outcome of a successful `TreeLiftingState.set` on `get` -/
+theorem Lifting.get_set {l l' : Lifting} {id : Ident} {v t : Option Ref} (hs : l.set id v t = (l', none)) (id' : Ident) :
+    l'.get id' = if id' = id then (v, t) else l.get id' := by
+  have modD : ∀ {a b : Lifting} {n f}, a.modLifted n f = .ok b → b.dict = a.dict := by
+    intro a b n f hm
+    simp only [Lifting.modLifted] at hm
+    split at hm
+    · cases hm; rfl
+    · split at hm
+      · cases hm; rfl
+      · cases hm
+  cases v with
+  | some v =>
+    cases t with
+    | none => simp [Lifting.set] at hs
+    | some t =>
+      simp only [Lifting.set] at hs
+      split at hs
+      · rename_i l2 hm
+        simp only [Prod.mk.injEq, and_true] at hs
+        subst hs
+        simp only [Lifting.get, modD hm, dictGet_dictSet]
+        by_cases he : id' = id <;> simp [he]
+      · simp at hs
+  | none =>
+    cases t with
+    | some t => simp [Lifting.set] at hs
+    | none =>
+      simp only [Lifting.set] at hs
+      split at hs
+      · split at hs
+        · rename_i l2 hm
+          simp only [Prod.mk.injEq, and_true] at hs
+          subst hs
+          simp only [Lifting.get, modD hm, dictGet_dictDel]
+          by_cases he : id' = id <;> simp [he]
+        · simp at hs
+      · rename_i hnone
+        simp only [Prod.mk.injEq, and_true] at hs
+        subst hs
+        split
+        · rename_i he
+          subst he
+          simp only [Lifting.get]
+          cases hd : dictGet l.dict id' with
+          | none => rfl
+          | some x => simp [hd] at hnone
+        · rfl
+
+theorem Lifting.set_dict_sub (l : Lifting) (id : Ident) (v t : Option Ref) :
+    ∀ e ∈ (l.set id v t).1.dict, e ∈ l.dict ∨ (∃ a b, v = some a ∧ t = some b ∧ e = (id, a, b)) := by
+  have modD : ∀ {a b : Lifting} {n f}, a.modLifted n f = .ok b → b.dict = a.dict := by
+    intro a b n f hm
+    simp only [Lifting.modLifted] at hm
+    split at hm
+    · cases hm; rfl
+    · split at hm
+      · cases hm; rfl
+      · cases hm
+  intro e he
+  cases v with
+  | some v =>
+    cases t with
+    | none => left; simpa [Lifting.set] using he
+    | some t =>
+      simp only [Lifting.set] at he
+      have : e ∈ dictSet l.dict id (v, t) := by
+        split at he
+        · rename_i l2 hm; simpa [modD hm] using he
+        · simpa using he
+      rcases mem_dictSet this with h | h
+      · left; exact h
+      · right; exact ⟨v, t, rfl, rfl, h⟩
+  | none =>
+    left
+    cases t with
+    | some t => simpa [Lifting.set] using he
+    | none =>
+      simp only [Lifting.set] at he
+      split at he
+      · have : e ∈ dictDel l.dict id := by
+          split at he
+          · rename_i l2 hm; simpa [modD hm] using he
+          · simpa using he
+        exact (List.mem_filter.1 this).1
+      · exact he
+
+/-- `TreePhysicalState.get` after a successful `set` -/
+theorem physGet_physSet {roots roots' : List (PRoot α)} {id : Ident} {p : Ref}
+    (hs : physSet roots id p = .ok roots') (id' : Ident) :
+    physGet roots' id' = if id' = id then (physGet roots id).map (fun n => { n with pos := p }) else physGet roots id' := by
+  match id, hs with
+  | [r], hs =>
+    simp only [physSet] at hs
+    cases hR : roots[r]? with
+    | none => simp [hR] at hs
+    | some R =>
+      simp only [hR, Except.ok.injEq] at hs
+      subst hs
+      obtain ⟨hlt, hRe⟩ := List.getElem?_eq_some_iff.1 hR
+      match id' with
+      | [] => simp [physGet]
+      | [r'] =>
+        by_cases hr : r' = r
+        · subst hr; simp [physGet, hR, hlt, Except.map, hRe]
+        · simp [physGet, List.getElem?_set_ne (Ne.symm hr), hr]
+      | [r', c'] =>
+        by_cases hr : r' = r
+        · subst hr; simp [physGet, hR, hlt, hRe]
+        · simp [physGet, List.getElem?_set_ne (Ne.symm hr)]
+      | _ :: _ :: _ :: _ => simp [physGet]
+  | [r, c], hs =>
+    simp only [physSet] at hs
+    cases hR : roots[r]? with
+    | none => simp [hR] at hs
+    | some R =>
+      simp only [hR] at hs
+      cases hL : R.children[c]? with
+      | none => simp [hL] at hs
+      | some L =>
+        simp only [hL, Except.ok.injEq] at hs
+        subst hs
+        obtain ⟨hlt, hRe⟩ := List.getElem?_eq_some_iff.1 hR
+        obtain ⟨hlc, hLe⟩ := List.getElem?_eq_some_iff.1 hL
+        match id' with
+        | [] => simp [physGet]
+        | [r'] =>
+          by_cases hr : r' = r
+          · subst hr; simp [physGet, hR, hlt, hRe]
+          · simp [physGet, List.getElem?_set_ne (Ne.symm hr)]
+        | [r', c'] =>
+          by_cases hr : r' = r
+          · subst hr
+            by_cases hc : c' = c
+            · subst hc; simp [physGet, hR, hL, hlt, hlc, Except.map, hRe, hLe]
+            · simp [physGet, hR, hlt, List.getElem?_set_ne (Ne.symm hc), hc, hRe]
+          · simp [physGet, List.getElem?_set_ne (Ne.symm hr), hr]
+        | _ :: _ :: _ :: _ => simp [physGet]
+  | [], hs => simp [physSet] at hs
+  | _ :: _ :: _ :: _, hs => simp [physSet] at hs
+
+/-- what is stored under the identifier of a committed unit: its references; charge and weight
+are those of the node -/
+def CUnit.over (u o : CUnit α) : CUnit α := ⟨u.id, u.pos, o.charge, u.vel, u.ts, o.weight⟩
+
+theorem unitAt_insertUnit {g g' : Global α} {u : CUnit α} (hs : insertUnit g u = (g', none)) (id' : Ident) :
+    unitAt g' id' = if id' = u.id then (unitAt g u.id).map u.over else unitAt g id' := by
+  simp only [insertUnit] at hs
+  cases hp : physSet g.roots u.id u.pos with
+  | error e => simp [hp] at hs
+  | ok roots =>
+    simp only [hp, Prod.mk.injEq] at hs
+    obtain ⟨rfl, h2⟩ := hs
+    have hl : g.lift.set u.id u.vel u.ts = ((g.lift.set u.id u.vel u.ts).1, none) := by rw [← h2]
+    simp only [unitAt, physGet_physSet hp id']
+    by_cases he : id' = u.id
+    · simp only [he, if_true]
+      cases hg : physGet g.roots u.id with
+      | error e => simp [Except.map]
+      | ok n => simp [Except.map, aliasUnit, CUnit.over, Lifting.get_set hl]
+    · simp only [he, if_false]
+      cases hg : physGet g.roots id' with
+      | error e => rfl
+      | ok n => simp [aliasUnit, Lifting.get_set hl, he]
+
+theorem insertUnit_isSome {g g' : Global α} {u : CUnit α} (hs : insertUnit g u = (g', none)) :
+    (unitAt g u.id).isSome := by
+  simp only [insertUnit] at hs
+  cases hp : physSet g.roots u.id u.pos with
+  | error e => simp [hp] at hs
+  | ok roots =>
+    have := physGet_physSet hp u.id
+    simp only [if_true] at this
+    simp only [unitAt]
+    cases hg : physGet g.roots u.id with
+    | ok n => rfl
+    | error e =>
+      exfalso
+      match hid : u.id, hp with
+      | [], hp => simp [physSet] at hp
+      | [r], hp =>
+        simp only [hid, physGet] at hg
+        simp only [physSet] at hp
+        cases hR : g.roots[r]? <;> simp_all
+      | [r, c], hp =>
+        simp only [hid, physGet] at hg
+        simp only [physSet] at hp
+        cases hR : g.roots[r]? with
+        | none => simp_all
+        | some R => cases hL : R.children[c]? <;> simp_all
+      | _ :: _ :: _ :: _, hp => simp [physSet] at hp
+
+theorem insertUnits_append (g : Global α) (a b : List (CUnit α)) :
+    insertUnits g (a ++ b) = match insertUnits g a with
+      | (g1, none) => insertUnits g1 b
+      | r => r := by
+  induction a generalizing g with
+  | nil => simp [insertUnits]
+  | cons u a ih =>
+    simp only [List.cons_append, insertUnits]
+    cases hu : insertUnit g u with
+    | mk g1 e =>
+      cases e with
+      | none => simp only [ih]
+      | some e => simp
+
+theorem unitAt_insertUnits_other {us : List (CUnit α)} : ∀ {g g' : Global α}, insertUnits g us = (g', none) →
+    ∀ {id : Ident}, (∀ w ∈ us, w.id ≠ id) → unitAt g' id = unitAt g id := by
+  induction us with
+  | nil => intro g g' hs id _; simp only [insertUnits, Prod.mk.injEq, and_true] at hs; rw [hs]
+  | cons u us ih =>
+    intro g g' hs id hn
+    simp only [insertUnits] at hs
+    cases hu : insertUnit g u with
+    | mk g1 e =>
+      cases e with
+      | some e => simp [hu] at hs
+      | none =>
+        simp only [hu] at hs
+        rw [ih hs (fun w hw => hn w (List.mem_cons_of_mem _ hw)), unitAt_insertUnit hu,
+          if_neg (Ne.symm (hn u (by simp)))]
+
+/-- charge and weight of a node never change -/
+theorem unitAt_insertUnits_static {us : List (CUnit α)} : ∀ {g g' : Global α}, insertUnits g us = (g', none) →
+    ∀ (id : Ident), (unitAt g' id).map (fun o => (o.id, o.charge, o.weight)) =
+      (unitAt g id).map (fun o => (o.id, o.charge, o.weight)) := by
+  induction us with
+  | nil => intro g g' hs id; simp only [insertUnits, Prod.mk.injEq, and_true] at hs; rw [hs]
+  | cons u us ih =>
+    intro g g' hs id
+    simp only [insertUnits] at hs
+    cases hu : insertUnit g u with
+    | mk g1 e =>
+      cases e with
+      | some e => simp [hu] at hs
+      | none =>
+        simp only [hu] at hs
+        rw [ih hs, unitAt_insertUnit hu]
+        by_cases he : id = u.id
+        · simp only [he, if_true]
+          cases hx : unitAt g u.id with
+          | none => simp
+          | some o =>
+            have : o.id = u.id := by
+              simp only [unitAt] at hx
+              cases hg : physGet g.roots u.id <;> simp [hg] at hx
+              rw [← hx]; rfl
+            simp [CUnit.over, this]
+        · simp [he]
+
+theorem unitAt_id {g : Global α} {id : Ident} {o : CUnit α} (h : unitAt g id = some o) : o.id = id := by
+  simp only [unitAt] at h
+  cases hg : physGet g.roots id <;> simp [hg] at h
+  rw [← h]; rfl
+
+/-- read-back: the last unit committed under an identifier is what is stored there afterwards -/
+theorem unitAt_insertUnits_last {g g' : Global α} {pre post : List (CUnit α)} {u : CUnit α}
+    (hs : insertUnits g (pre ++ u :: post) = (g', none)) (hn : ∀ w ∈ post, w.id ≠ u.id) :
+    ∃ o, unitAt g u.id = some o ∧ unitAt g' u.id = some (u.over o) := by
+  rw [insertUnits_append] at hs
+  cases h1 : insertUnits g pre with
+  | mk g1 e1 =>
+    cases e1 with
+    | some e => simp [h1] at hs
+    | none =>
+      simp only [h1, insertUnits] at hs
+      cases h2 : insertUnit g1 u with
+      | mk g2 e2 =>
+        cases e2 with
+        | some e => simp [h2] at hs
+        | none =>
+          simp only [h2] at hs
+          have a := unitAt_insertUnits_other hs hn
+          have b := unitAt_insertUnit h2 u.id
+          simp only [if_true] at b
+          have c := insertUnit_isSome h2
+          obtain ⟨o1, ho1⟩ := Option.isSome_iff_exists.1 c
+          have d := unitAt_insertUnits_static h1 u.id
+          rw [ho1] at d
+          cases ho : unitAt g u.id with
+          | none => simp [ho] at d
+          | some o =>
+            refine ⟨o, rfl, ?_⟩
+            rw [a, b, ho1]
+            simp only [ho, Option.map_some, Option.some.injEq, Prod.mk.injEq] at d
+            simp [CUnit.over, d.2.1, d.2.2]
+
+/-! ### references after a commit -/
+
+def posRefs (R : PRoot α) : List Ref := R.node.pos :: R.children.map (·.pos)
+
+theorem mem_flatMap_set {β γ : Type} {l : List β} {f : β → List γ} {i : Nat} {a : β} {x : γ}
+    (hx : x ∈ (l.set i a).flatMap f) : x ∈ l.flatMap f ∨ x ∈ f a := by
+  simp only [List.mem_flatMap] at hx ⊢
+  obtain ⟨b, hb, hxb⟩ := hx
+  rcases List.mem_or_eq_of_mem_set hb with h | h
+  · left; exact ⟨b, h, hxb⟩
+  · right; rw [← h]; exact hxb
+
+theorem physSet_refs_sub {roots roots' : List (PRoot α)} {id : Ident} {p : Ref}
+    (hs : physSet roots id p = .ok roots') :
+    ∀ x ∈ roots'.flatMap posRefs, x ∈ roots.flatMap posRefs ∨ x = p := by
+  intro x hx
+  match id, hs with
+  | [], hs => simp [physSet] at hs
+  | [r], hs =>
+    simp only [physSet] at hs
+    cases hR : roots[r]? with
+    | none => simp [hR] at hs
+    | some R =>
+      simp only [hR, Except.ok.injEq] at hs
+      subst hs
+      rcases mem_flatMap_set hx with h | h
+      · left; exact h
+      · simp only [posRefs, List.mem_cons] at h
+        rcases h with h | h
+        · right; exact h
+        · left
+          simp only [List.mem_flatMap]
+          exact ⟨R, List.mem_of_getElem? hR, by simp only [posRefs, List.mem_cons]; right; exact h⟩
+  | [r, c], hs =>
+    simp only [physSet] at hs
+    cases hR : roots[r]? with
+    | none => simp [hR] at hs
+    | some R =>
+      simp only [hR] at hs
+      cases hL : R.children[c]? with
+      | none => simp [hL] at hs
+      | some L =>
+        simp only [hL, Except.ok.injEq] at hs
+        subst hs
+        rcases mem_flatMap_set hx with h | h
+        · left; exact h
+        · simp only [posRefs, List.mem_cons, List.mem_map] at h
+          rcases h with h | ⟨n, hn, hnx⟩
+          · left
+            simp only [List.mem_flatMap]
+            exact ⟨R, List.mem_of_getElem? hR, by simp [posRefs, h]⟩
+          · rcases List.mem_or_eq_of_mem_set hn with h2 | h2
+            · left
+              simp only [List.mem_flatMap]
+              exact ⟨R, List.mem_of_getElem? hR, by
+                simp only [posRefs, List.mem_cons, List.mem_map]; right; exact ⟨n, h2, hnx⟩⟩
+            · right; rw [← hnx, h2]
+  | _ :: _ :: _ :: _, hs => simp [physSet] at hs
+
+theorem insertUnit_refs_sub (g : Global α) (u : CUnit α) :
+    ∀ r ∈ (insertUnit g u).1.refs, r ∈ g.refs ∨ r ∈ u.refs := by
+  intro r hr
+  simp only [insertUnit] at hr
+  cases hp : physSet g.roots u.id u.pos with
+  | error e => simp only [hp] at hr; left; exact hr
+  | ok roots =>
+    simp only [hp, Global.refs, List.mem_append] at hr
+    simp only [Global.refs, List.mem_append]
+    rcases hr with hr | hr
+    · rcases physSet_refs_sub hp r hr with h | h
+      · left; left; exact h
+      · right; simp [CUnit.refs, h]
+    · simp only [List.mem_flatMap] at hr
+      obtain ⟨e, he, hre⟩ := hr
+      rcases Lifting.set_dict_sub g.lift u.id u.vel u.ts e he with h | ⟨a, b, hv, ht, h⟩
+      · left; right; simp only [List.mem_flatMap]; exact ⟨e, h, hre⟩
+      · right
+        subst h
+        simp only [List.mem_cons, List.not_mem_nil, or_false] at hre
+        simp only [CUnit.refs, hv, ht, List.mem_cons, List.mem_append, Option.toList_some, List.not_mem_nil, or_false]
+        rcases hre with h | h
+        · right; left; exact h
+        · right; right; exact h
+
+theorem insertUnits_refs_sub (us : List (CUnit α)) : ∀ (g : Global α),
+    ∀ r ∈ (insertUnits g us).1.refs, r ∈ g.refs ∨ r ∈ us.flatMap CUnit.refs := by
+  induction us with
+  | nil => intro g r hr; left; simpa [insertUnits] using hr
+  | cons u us ih =>
+    intro g r hr
+    simp only [insertUnits] at hr
+    cases hu : insertUnit g u with
+    | mk g1 e =>
+      have h1 := insertUnit_refs_sub g u
+      rw [hu] at h1
+      cases e with
+      | some e =>
+        simp only [hu] at hr
+        rcases h1 r hr with h | h
+        · left; exact h
+        · right; simp [h]
+      | none =>
+        simp only [hu] at hr
+        rcases ih g1 r hr with h | h
+        · rcases h1 r h with h | h
+          · left; exact h
+          · right; simp [h]
+        · right; simp only [List.flatMap_cons, List.mem_append]; right; exact h
 
 end JF.Store
